@@ -46,6 +46,10 @@ func init() {
 	Exec["bitmap.Slice/ToArray"] = func(a []V) string {
 		return I32s(bitmap.ToArray(bitmap.Slice(a[0].U64s(), a[1].I32(), a[2].I32())))
 	}
+	Exec["bitmap.Slice/Slice"] = func(a []V) string {
+		r := bitmap.Slice(a[0].U64s(), a[1].I32(), a[2].I32())
+		return U64s(bitmap.Slice(r, a[3].I32(), a[4].I32()))
+	}
 }
 
 func genC14Widen(g *Gen) {
@@ -168,5 +172,41 @@ func genC14Widen(g *Gen) {
 			to = minInt(64*nw, from+g.R.Intn(130))
 		}
 		sta(ws, from, to, "slicearr-rand")
+	}
+
+	// (8b) a slice of a slice: all (a,b,c,d) over a 1-word bitmap with steps, random over 1..12 words
+	ss := func(ws []uint64, a, b, c, d int, bucket string) {
+		if !(0 <= a && a <= b && b <= 64*len(ws) && 0 <= c && c <= d && d <= b-a) {
+			return
+		}
+		g.Stat(bucket)
+		key := c14SliceKey(ws, a+c, a+d)
+		if key != "" {
+			key = fmt.Sprintf("SS/o%s/%s", c13Off(a), key)
+		}
+		g.Do("bitmap.Slice/Slice", L(U64s(ws), Int(a), Int(b), Int(c), Int(d)), key)
+	}
+	one := []uint64{g.R.U64() | 1 | 1<<63, g.R.U64() | 1}
+	pts := []int{0, 1, 7, 31, 63, 64, 65, 100, 127, 128}
+	for _, a := range pts {
+		for _, b := range pts {
+			for _, c := range pts {
+				for _, d := range pts {
+					ss(one, a, b, c, d, "sliceslice-grid")
+				}
+			}
+		}
+	}
+	for k := 0; k < g.N(800, 15000); k++ {
+		nw := g.R.Range(1, 12)
+		ws := g.R.Words(nw)
+		a := g.R.Intn(64*nw + 1)
+		b := g.R.Range(a, 64*nw)
+		c := g.R.Intn(b - a + 1)
+		d := g.R.Range(c, b-a)
+		if g.R.Intn(4) == 0 {
+			c, d = 0, b-a
+		}
+		ss(ws, a, b, c, d, "sliceslice-rand")
 	}
 }
